@@ -69,7 +69,7 @@ CHECKS = {
  "C01": ("exploration",
          "stateful proptest generation of connection scripts x client write segmentations against a real App on loopback; oracle = reference connection model + strict reference response parser; probe-based (not timeout-based) keep-alive/close decisions; handler-side dispatch log",
          "Scripts of 1..6 steps (5 methods x routed/unrouted/CORS/echo/empty/70 KB/panicking targets x Connection absent/close/keep-alive in four letter cases x HTTP/1.0|1.1 x Content-Length bodies incl. request-looking and >8 KiB ones x 7 malformed kinds x idle past the timeout), pool size 1..4, delivered per request / byte-wise / in random segments, with sequential or pipelined boundaries, run against a real threaded App. A reference model predicts every response: status, echoed version, one IMF-fixdate Date, Server, exactly the route's CORS headers, Content-Length framing equal to the body, the body itself (which restates the request the handler saw), 400/408 + close, EOF without bytes for a panicking handler; whether the connection stays open is decided by a follow-up request that must (or must not) be answered; the handlers' dispatch log must equal the well-formed routed requests sent. After panics new connections and N simultaneous keep-alive connections on an N-thread pool must still be served.",
-         "Trusts the reference model and response parser; the kernel may coalesce client segments (weakens coverage only). Known findings tolerated and counted: stray CRLF after bodies (K2) and loss of pipelined read-ahead bytes (K1; tails after a pipelined boundary are judged leniently: only exact later responses in order or 400s). Threaded runtime only so far.",
+         "Trusts the reference model and response parser; the kernel may coalesce client segments (weakens coverage only). Known findings tolerated and counted: stray CRLF after bodies (K2) and loss of pipelined read-ahead bytes (K1; tails after a pipelined boundary are judged leniently: only exact later responses in order or 400s). Both runtimes: the threaded App (crate hv) and the tokio App with async handlers (crate hvt; it has no connection timeout, so its scripts carry no idle steps and 408 is only checked on the threaded runtime); the evidence file merges both runs (labels prefixed `tokio:`).",
          "DESIGN.md §5 C01"),
  "C09": ("fault_enumeration",
          "fault enumeration (every valid upstream response cut at every byte offset) + proptest generation of requests / upstream behaviours against a scripted loopback upstream; oracle = strict reference response parser on the bytes actually sent, reference request parser on the bytes received, deadline; model-based load-balancer sequences",
@@ -147,7 +147,7 @@ def main():
         "engines": [
             {"name": "hv", "path": "/verif/harness", "serves_properties": [c["property_id"] for c in checks],
              "kind_free_text": "Rust binary: proptest-driven random generation with shrinking, bounded-exhaustive enumeration, reference models/oracles, isolated worker processes, replay files, evidence writer"},
-            {"name": "hvt", "path": "/verif/harness-tokio", "serves_properties": ["C02", "C04", "C20"],
+            {"name": "hvt", "path": "/verif/harness-tokio", "serves_properties": ["C01", "C02", "C04", "C20"],
              "kind_free_text": "Rust binary built against humphrey with feature `tokio`: the tokio-runtime twins, sharing engine / generators / oracles with hv through #[path] includes; its summary is merged into the property's evidence by hv"},
         ],
         "checks": checks,
